@@ -170,6 +170,31 @@ def gate_spec(ctx, P, rule="GATE-SPEC"):
                     if sd is not None:
                         for m in re.findall(r"TSK_(?:NO_)?CHECK_\w+", F.tu.src(sd)):
                             flags_found.add(m)
+        # reach: apart from its flag, the guard may only sit under conditions over the variables it itself tests (the NULL test
+        # of the reference it is about to dereference); a condition over ANOTHER variable narrows the requirement to some rows
+        def expand(text, depth=0):
+            out = set()
+            for ident in re.findall(r"[A-Za-z_]\w*", text):
+                sd = single_def(fn, ident) if depth < 4 else None
+                if sd is not None:
+                    out |= expand(F.tu.src(sd), depth + 1)
+                else:
+                    out.add(ident)
+            return out
+        own_ids = expand(F.tu.src(hit.ifn.kids[0]))
+        foreign = []
+        for c in conds[:-1]:
+            ids = expand(c)
+            if any(i.startswith("TSK_CHECK_") or i.startswith("TSK_NO_CHECK_") for i in ids):
+                continue        # the option flag: decided by the flag clause below
+            extra = {i for i in ids - own_ids if not i.startswith(("TSK_", "tsk_")) and i not in ("options", "self", "j", "k", "i")}
+            if extra:
+                foreign.append((c, sorted(extra)))
+        if rel is not None:
+            ctx.ob(rule, key + "|reach", not foreign, tu.loc(hit.ifn),
+                   "reached for every row (enclosing conditions test only the guard's own variables)" if not foreign else
+                   "the guard for %s sits under `%s`, a condition over %s that the requirement does not mention: rows for which it is "
+                   "false are never checked" % (code, " ".join(foreign[0][0].split())[:60], foreign[0][1]))
         want = {flag} if flag else set()
         ok = flags_found == want
         ctx.ob(rule, key, ok, tu.loc(hit.ifn),
